@@ -1,13 +1,16 @@
 """C05 — a mailbox delivers every message exactly once, in order, to every subscriber.
 
-Model: lean/StraxModel/Model/Mailbox.lean (labelled transition system of one mailbox, Appendix D granularity);
-theorems: Props/C05.lean (+ the mailbox-level theorems of C13 in Props/C13.lean).
-Tie: the REAL strax.Mailbox runs under the cooperative scheduler (checks/lib/sched.py) with a recorded
-schedule; the same configuration + schedule goes to the Lean driver (`c05.run`); the per-step snapshots
-(heap numbers, have_read, waiting_for, closed/killed/force_killed, n_sent, set of enabled threads), the end
+Model: lean/StraxModel/Model/Mailbox.lean (labelled transition system of one mailbox; one action = one atomic
+block between two yield points of the scheduler, action table in notes/C05.md) and Model/Divider.lean (divide_outputs
+feeding several mailboxes); theorems: Props/C05.lean (+ the mailbox-level theorems of C13 in Props/C13.lean).
+Tie: the REAL strax.Mailbox / divide_outputs run under the cooperative scheduler (checks/lib/sched.py) with a
+recorded schedule (every schedule up to a preemption bound for the smallest configurations, seeded random / PCT
+otherwise); the same configuration + schedule goes to the Lean driver (`c05.run` / `c05.div`); the per-step
+snapshots (heap numbers, have_read, waiting_for, closed/killed/force_killed, n_sent, set of enabled threads), the end
 status, every subscriber's received sequence and how every thread ended are diffed as one canonical line.
 Oracle (independent of the model, on the real run): every subscriber received exactly the sent values in
-number order, len(_mailbox) <= max_messages after every atomic step, no deadlock, all threads ended normally.
+number order (per output: its component of every dict), len(_mailbox) <= max_messages after every atomic step,
+no deadlock, all threads ended normally.
 """
 from __future__ import annotations
 
@@ -28,9 +31,13 @@ TRUSTED = [
     "yield points at lock acquire / Condition.wait / Future.result / harness `fetch` and `work` points)",
     "modelled, not verified: threading.Condition / RLock semantics (wait releases the lock completely, wakes only on notify or timeout), "
     "heapq (the model keeps a list and compares sorted numbers), concurrent.futures.Future",
+    "the stale-waiter rule of Mailbox._can_fetch is read off its source text (gate_rule()): L = compares with the lowest number "
+    "(before fb45a02), H = _has_msg (today); the Lean model carries both rules",
 ]
 ASSUMPTIONS = [
-    "one sender thread per mailbox (as in strax); message payloads are small integers; futures are completed by harness worker threads",
+    "one sender thread per mailbox (as in strax); message payloads are small integers; futures are completed (never failed) by harness "
+    "worker threads; explicit message numbers only on eager mailboxes (the fetch gate lives in _send_from / divide_outputs, which number in order)",
+    "divide_outputs: the source is a harness generator of dicts, `outputs` is the list the divider sends to; duplicate message numbers are outside the model",
     "timeouts are not transitions: the scheduler delivers them only after it has recorded a deadlock",
     "preemption inside a lock-free region of mailbox.py is not explored (all shared state of Mailbox is accessed under its lock)",
 ]
@@ -67,7 +74,7 @@ _RULE = []
 
 def gate_rule():
     """which stale-waiter test `Mailbox._can_fetch` uses today (read off its source; the Lean model has both):
-    L = compares waiting_for with the lowest buffered number (defect D6), H = `_has_msg` (candidate fix)"""
+    L = compares waiting_for with the lowest buffered number (defect D6, before fb45a02), H = `_has_msg` (the code today)"""
     if not _RULE:
         import inspect
         src = inspect.getsource(mbm.Mailbox._can_fetch)
